@@ -92,6 +92,8 @@ Proof. intros. unfold close_branch. apply errs_bind; [apply errs_modify|intros].
 
 #[export] Hint Resolve errs_ret errs_new_bb errs_fresh errs_link errs_dummy errs_add errs_close errs_modify : errs.
 
+Ltac ea := cbv beta; first [apply errs_ret | apply errs_new_bb | apply errs_fresh | apply errs_link | apply errs_dummy
+                          | apply errs_add | apply errs_close | apply errs_modify | idtac].
 Ltac eb := apply errs_bind; [|intros].
 
 (** errors of the expression builders on [e]: the two user errors, or the model declining on a
@@ -114,32 +116,32 @@ Lemma BE_mono : forall c d v, (c = true -> d = true) -> BE c v -> BE d v.
 Proof. intros c d v H E bb t f. eapply errs_weaken; [apply E|]. intros. eapply XE_mono; eauto. Qed.
 
 Lemma BE_gen : forall c v, EE c v -> BE c (gen_branch v).
-Proof. intros c v H bb t f. unfold gen_branch. eb; [apply H | auto with errs]. Qed.
+Proof. intros c v H bb t f. unfold gen_branch. eb; [apply H | ea]. Qed.
 
 Lemma EE_unary : forall c op a, EE c (build_expr a) -> EE c (bx_unary op a (build_expr a)).
 Proof.
   intros c op a H bb. unfold bx_unary.
-  assert (G : errs (LET r <- build_expr a bb IN ret (EUnary op (fst r), snd r)) (XE c)) by (eb; [apply H | auto with errs]).
-  destruct op; auto. destruct a; auto. destruct (neg_const c0); auto with errs.
+  assert (G : errs (LET r <- build_expr a bb IN ret (EUnary op (fst r), snd r)) (XE c)) by (eb; [apply H | ea]).
+  destruct op; auto. destruct a; auto. destruct (neg_const c0); ea.
 Qed.
 Lemma EE_1 : forall c k ra, EE c ra -> EE c (bx_1 k ra).
-Proof. intros c k ra H bb. unfold bx_1. eb; [apply H | auto with errs]. Qed.
+Proof. intros c k ra H bb. unfold bx_1. eb; [apply H | ea]. Qed.
 Lemma EE_2 : forall c k ra rb, EE c ra -> EE c rb -> EE c (bx_2 k ra rb).
-Proof. intros c k ra rb Ha Hb bb. unfold bx_2. eb; [apply Ha|]. eb; [apply Hb | auto with errs]. Qed.
+Proof. intros c k ra rb Ha Hb bb. unfold bx_2. eb; [apply Ha|]. eb; [apply Hb | ea]. Qed.
 Lemma EE_list : forall c k ras, EES c ras -> EE c (bx_list k ras).
-Proof. intros c k ras H bb. unfold bx_list. eb; [apply H | auto with errs]. Qed.
+Proof. intros c k ras H bb. unfold bx_list. eb; [apply H | ea]. Qed.
 Lemma EE_call : forall c rf ras, EE c rf -> EES c ras -> EE c (bx_call rf ras).
-Proof. intros c rf ras Hf Ha bb. unfold bx_call. eb; [apply Hf|]. eb; [apply Ha | auto with errs]. Qed.
+Proof. intros c rf ras Hf Ha bb. unfold bx_call. eb; [apply Hf|]. eb; [apply Ha | ea]. Qed.
 Lemma EE_walrus : forall c x ra, EE c ra -> EE c (bx_walrus x ra).
-Proof. intros c x ra H bb. unfold bx_walrus. eb; [apply H|]. eb; auto with errs. Qed.
+Proof. intros c x ra H bb. unfold bx_walrus. eb; [apply H|]. eb; ea. Qed.
 Lemma EE_lift : forall c br, BE c br -> EE c (lift_bool br).
 Proof.
-  intros c br H bb. unfold lift_bool. eb; auto with errs. eb; auto with errs. eb; [apply H|].
-  repeat (eb; auto with errs).
+  intros c br H bb. unfold lift_bool. eb; ea. eb; ea. eb; [apply H|].
+  repeat (eb; ea).
 Qed.
 Lemma BE_bool : forall c op ba bb_, BE c ba -> BE c bb_ -> BE c (br_bool op ba bb_).
 Proof.
-  intros c op ba bb_ Ha Hb bb t f. unfold br_bool. eb; auto with errs. eb; [destruct op; apply Ha | apply Hb].
+  intros c op ba bb_ Ha Hb bb t f. unfold br_bool. eb; ea. eb; [destruct op; apply Ha | apply Hb].
 Qed.
 
 Lemma orb_l : forall a b, a = true -> a || b = true.
@@ -160,7 +162,7 @@ Lemma chain_errs : forall c l rest,
         LET extra <- new_bb IN
         LET r <- build_expr l bb IN
         build_ctail (fst r) rest (snd r) (Some extra) t f).
-Proof. intros c l rest Hl Hc bb t f. eb; auto with errs. eb; [apply Hl | apply Hc]. Qed.
+Proof. intros c l rest Hl Hc bb t f. eb; ea. eb; [apply Hl | apply Hc]. Qed.
 
 Lemma build_expr_chain : forall l op m r,
   build_expr (ECmp l (CMore op m r)) =
@@ -177,15 +179,15 @@ Lemma build_branch_chain : forall l op m r,
         build_ctail (fst r0) (CMore op m r) (snd r0) (Some extra) t f).
 Proof. reflexivity. Qed.
 
-Ltac mono H := first [eapply EE_mono | eapply EES_mono | eapply BE_mono]; [|apply H]; intro; auto using orb_l, orb_r.
+Ltac mono H := first [eapply EE_mono | eapply EES_mono | eapply BE_mono]; [|apply H]; intro; simpl; auto using orb_l, orb_r.
 
 Lemma total_all : (forall e, T_expr e) /\ (forall es, T_exprs es) /\ (forall ct, T_ctail ct) /\ (forall gs, T_gens gs).
 Proof.
   apply expr_mutind; unfold T_expr, T_exprs, T_ctail, T_gens.
-  - (* EConst *) intros c. split; [intros bb; auto with errs|].
-    simpl. destruct c; try (apply BE_gen; intros bb; auto with errs).
-    intros bb t f. eb; auto with errs.
-  - (* EName *) intros x. split; [intros bb; auto with errs | apply BE_gen; intros bb; auto with errs].
+  - (* EConst *) intros c. split; [intros bb; cbv beta; ea|].
+    simpl. destruct c; try (apply BE_gen; intros bb; cbv beta; ea).
+    intros bb t f. eb; ea.
+  - (* EName *) intros x. split; [intros bb; cbv beta; ea | apply BE_gen; intros bb; cbv beta; ea].
   - (* EUnary *) intros op e [E B]. split; [simpl; apply EE_unary; auto|].
     simpl. destruct op; try (apply BE_gen; apply EE_unary; auto). intros bb t f. apply B.
   - (* EBin *) intros op a [Ea _] b [Eb _].
@@ -215,9 +217,9 @@ Proof.
     assert (Eb' : EE (chain_mid (EIf c a b)) (build_expr b)) by (simpl; mono Eb).
     assert (Bb' : BE (chain_mid (EIf c a b)) (build_branch b)) by (simpl; mono Bb).
     split.
-    + intros bb. simpl build_expr. eb; auto with errs. eb; auto with errs. eb; [apply Bc'|]. eb; [apply Ea'|]. eb; [apply Eb'|].
-      repeat (eb; auto with errs).
-    + intros bb t f. simpl build_branch. eb; auto with errs. eb; auto with errs. eb; [apply Bc'|]. eb; [apply Ba' | apply Bb'].
+    + intros bb. simpl build_expr. eb; ea. eb; ea. eb; [apply Bc'|]. eb; [apply Ea'|]. eb; [apply Eb'|].
+      repeat (eb; ea).
+    + intros bb t f. simpl build_branch. eb; ea. eb; ea. eb; [apply Bc'|]. eb; [apply Ba' | apply Bb'].
   - (* EWalrus *) intros x e [E _].
     assert (G : EE (chain_mid (EWalrus x e)) (bx_walrus x (build_expr e))) by (apply EE_walrus; auto).
     split; [exact G | simpl build_branch; apply BE_gen; exact G].
@@ -248,13 +250,13 @@ Proof.
                                ret (EDesugared k (fst re) (fst rg), snd re))).
     { intros bb. destruct (has_illegal elt || has_illegal_gens gs); [apply errs_fail; left; auto|].
       eb; [eapply errs_weaken; [apply Eg|]; intros; eapply XE_mono; [|eauto]; intro; simpl; auto using orb_r|].
-      eb; [|auto with errs]. eapply errs_weaken; [apply Ee|]. intros. eapply XE_mono; [|eauto]. intro. simpl. auto using orb_l. }
+      eb; [|ea]. eapply errs_weaken; [apply Ee|]. intros. eapply XE_mono; [|eauto]. intro. simpl. auto using orb_l. }
     split; [exact G | simpl build_branch; apply BE_gen; exact G].
-  - (* EDesugared *) intros k elt _ gs _. split; [intros bb; simpl; auto with errs | simpl; apply BE_gen; intros bb; auto with errs].
+  - (* EDesugared *) intros k elt _ gs _. split; [intros bb; cbv beta; simpl; ea | simpl; apply BE_gen; intros bb; cbv beta; ea].
   - (* EComptime *) intros args _.
     assert (G : EE (chain_mid (EComptime args))
                (fun bb => match args with ENil => fail ErrEmptyComptime | _ => ret (EComptime args, bb) end)).
-    { intros bb. destruct args; [apply errs_fail; right; left; auto | auto with errs]. }
+    { intros bb. destruct args; [apply errs_fail; right; left; auto | ea]. }
     split; [exact G | simpl build_branch; apply BE_gen; exact G].
   - (* EOther *) intros k es E.
     assert (G : EE (chain_mid (EOther k es)) (bx_list (EOther k) (build_exprs es))) by (apply EE_list; auto).
@@ -265,22 +267,134 @@ Proof.
   - (* EIterNext *) intros e [E _].
     assert (G : EE (chain_mid (EIterNext e)) (bx_1 EIterNext (build_expr e))) by (apply EE_1; auto).
     split; [exact G | simpl build_branch; apply BE_gen; exact G].
-  - (* ENil *) intros bb. simpl. auto with errs.
+  - (* ENil *) intros bb. simpl. ea.
   - (* ECons *) intros e [Ee _] es Es bb. simpl build_exprs.
     eb; [eapply errs_weaken; [apply Ee|]; intros; eapply XE_mono; [|eauto]; intro; simpl; auto using orb_l|].
-    eb; [|auto with errs]. eapply errs_weaken; [apply Es|]. intros. eapply XE_mono; [|eauto]. intro. simpl. auto using orb_r.
-  - (* CLast *) intros op e [E _]. split; auto. intros l' bb extra t f. simpl. eb; [apply E | auto with errs].
+    eb; [|ea]. eapply errs_weaken; [apply Es|]. intros. eapply XE_mono; [|eauto]. intro. simpl. auto using orb_r.
+  - (* CLast *) intros op e [E _]. split; auto. intros l' bb extra t f. simpl. eb; [apply E | ea].
   - (* CMore *) intros op m [Em _] rest [Hc _]. split; auto.
     intros l' bb extra t f. simpl build_ctail. destruct (lift_free m) eqn:LF.
-    + eb; [destruct extra; auto with errs|]. eb.
+    + eb; [destruct extra; ea|]. eb.
       * eapply errs_weaken; [apply Em|]. intros. eapply XE_mono; [|eauto]. intro. simpl. rewrite LF. simpl. auto using orb_l.
-      * eb; auto with errs. eapply errs_weaken; [apply Hc|]. intros. eapply XE_mono; [|eauto]. intro. simpl. auto using orb_r.
+      * eb; ea. eapply errs_weaken; [apply Hc|]. intros. eapply XE_mono; [|eauto]. intro. simpl. auto using orb_r.
     + apply errs_fail. right. right. split; auto. simpl. rewrite LF. auto.
-  - (* GNil *) intros bb. simpl. auto with errs.
+  - (* GNil *) intros bb. simpl. ea.
   - (* GCons *) intros t [Et _] it [Ei _] ifs Ec r Er bb. simpl build_gens.
     eb; [eapply errs_weaken; [apply Ei|]; intros; eapply XE_mono; [|eauto]; intro; simpl; rewrite H0; repeat rewrite orb_true_r; auto|].
     eb; [eapply errs_weaken; [apply Et|]; intros; eapply XE_mono; [|eauto]; intro; simpl; rewrite H0; auto|].
     eb; [eapply errs_weaken; [apply Ec|]; intros; eapply XE_mono; [|eauto]; intro; simpl; rewrite H0; repeat rewrite orb_true_r; auto|].
-    eb; auto with errs.
-    eb; [|auto with errs]. eapply errs_weaken; [apply Er|]. intros. eapply XE_mono; [|eauto]. intro. simpl. auto using orb_r.
+    eb; ea.
+    eb; [|ea]. eapply errs_weaken; [apply Er|]. intros. eapply XE_mono; [|eauto]. intro. simpl. auto using orb_r.
+Qed.
+
+(* ------------------------------------------------------------------ statements *)
+Definition SE (c : bool) (err : berr) : Prop :=
+  XE c err \/ err = ErrLoopElse \/ err = ErrUnsupportedStmt \/ err = ErrExpectedReturn.
+
+Lemma SE_mono : forall c d err, (c = true -> d = true) -> SE c err -> SE d err.
+Proof. unfold SE. intros c d err H [X|?]; auto. left. eapply XE_mono; eauto. Qed.
+
+Definition jumps_ok (inloop : bool) (j : jumps) : Prop :=
+  inloop = true -> j_brk j <> None /\ j_cont j <> None.
+
+Definition T_stmt (s : stmt) : Prop :=
+  forall inloop bb j, loops_ok inloop s = true -> jumps_ok inloop j ->
+  errs (visit_stmt s bb j) (SE (chain_mid_stmt s)).
+Definition T_stmts (ss : stmts) : Prop :=
+  forall inloop prev cur j, loops_ok_list inloop ss = true -> jumps_ok inloop j ->
+  errs (visit_stmts ss prev cur j) (SE (chain_mid_stmts ss)).
+
+Lemma xe_expr : forall e c bb, (chain_mid e = true -> c = true) -> errs (build_expr e bb) (SE c).
+Proof.
+  intros e c bb H. eapply errs_weaken; [apply (proj1 (proj1 total_all e))|].
+  intros. left. eapply XE_mono; eauto.
+Qed.
+Lemma xe_exprs : forall es c bb, (chain_mid_list es = true -> c = true) -> errs (build_exprs es bb) (SE c).
+Proof.
+  intros es c bb H. eapply errs_weaken; [apply (proj1 (proj2 total_all) es)|].
+  intros. left. eapply XE_mono; eauto.
+Qed.
+Lemma xe_branch : forall e c bb t f, (chain_mid e = true -> c = true) -> errs (build_branch e bb t f) (SE c).
+Proof.
+  intros e c bb t f H. eapply errs_weaken; [apply (proj2 (proj1 total_all e))|].
+  intros. left. eapply XE_mono; eauto.
+Qed.
+
+Ltac orb_solve := intro; simpl; repeat rewrite orb_true_iff; auto 6.
+
+Lemma jumps_ok_loop : forall r h t, jumps_ok true (mkJ r (Some h) (Some t)).
+Proof. unfold jumps_ok. simpl. intros. split; discriminate. Qed.
+
+Lemma visit_total : (forall s, T_stmt s) /\ (forall ss, T_stmts ss).
+Proof.
+  apply stmt_mutind; unfold T_stmt, T_stmts.
+  - (* SAssign *) intros ts e inloop bb j _ _. simpl visit_stmt.
+    eb; [apply xe_expr; orb_solve|]. eb; [apply xe_exprs; orb_solve|]. eb; ea.
+  - (* SAug *) intros t op e inloop bb j _ _. simpl visit_stmt.
+    eb; [apply xe_expr; orb_solve|]. eb; [apply xe_expr; orb_solve|]. eb; ea.
+  - (* SAnn *) intros t e inloop bb j _ _. destruct e as [e|]; simpl visit_stmt.
+    + eb; [apply xe_expr; orb_solve|]. eb; [apply xe_expr; orb_solve|]. eb; ea.
+    + eb; [apply xe_expr; orb_solve|]. eb; ea.
+  - (* SExpr *) intros e inloop bb j _ _. simpl visit_stmt. eb; [apply xe_expr; orb_solve|].
+    eb; [|ea]. destruct (is_tmp_name (fst a)); ea.
+  - (* SIf *) intros c body IHb orelse IHo inloop bb j L J. simpl in L.
+    apply andb_true_iff in L as [L1 L2]. simpl visit_stmt.
+    eb; [ea|]. eb; [ea|]. eb; [apply xe_branch; orb_solve|].
+    eb; [eapply errs_weaken; [eapply IHb; eauto|]; intros; eapply SE_mono; [|eauto]; orb_solve|].
+    eb; [eapply errs_weaken; [eapply IHo; eauto|]; intros; eapply SE_mono; [|eauto]; orb_solve|].
+    match goal with |- errs (match ?x with _ => _ end) _ => destruct x end;
+    match goal with |- errs (match ?x with _ => _ end) _ => destruct x | _ => idtac end; try ea.
+    eb; [ea|]. eb; [ea|]. eb; ea.
+  - (* SWhile *) intros c body IHb orelse IHo inloop bb j L J. simpl in L.
+    apply andb_true_iff in L as [L1 L2]. simpl visit_stmt.
+    destruct orelse; [|apply errs_fail; right; left; auto].
+    eb; [ea|]. eb; [ea|]. eb; [ea|]. eb; [ea|]. eb; [apply xe_branch; orb_solve|].
+    eb; [eapply errs_weaken; [eapply IHb; [eauto | apply jumps_ok_loop]|]; intros; eapply SE_mono; [|eauto]; orb_solve|].
+    eb; [|ea]. match goal with |- errs (match ?x with _ => _ end) _ => destruct x end; ea.
+  - (* SFor *) intros t it body IHb orelse IHo inloop bb j L J. simpl in L.
+    apply andb_true_iff in L as [L1 L2]. simpl visit_stmt.
+    destruct orelse; [|apply errs_fail; right; left; auto].
+    eb; [ea|]. eb; [ea|]. eb; [apply xe_expr; orb_solve|].
+    do 13 (eb; [ea|]).
+    eb; [apply xe_expr; orb_solve|]. eb; [ea|].
+    eb; [eapply errs_weaken; [eapply IHb; [eauto | apply jumps_ok_loop]|]; intros; eapply SE_mono; [|eauto]; orb_solve|].
+    eb; [|ea]. match goal with |- errs (match ?x with _ => _ end) _ => destruct x end; ea.
+  - (* SBreak *) intros inloop bb j L J. simpl in L. subst. destruct (J eq_refl) as [B _].
+    simpl visit_stmt. destruct (j_brk j); [|congruence]. eb; ea.
+  - (* SContinue *) intros inloop bb j L J. simpl in L. subst. destruct (J eq_refl) as [_ C].
+    simpl visit_stmt. destruct (j_cont j); [|congruence]. eb; ea.
+  - (* SPass *) intros. simpl. ea.
+  - (* SReturn *) intros e inloop bb j _ _. destruct e as [e|]; simpl visit_stmt.
+    + eb; [apply xe_expr; orb_solve|]. eb; [ea|]. eb; ea.
+    + eb; [ea|]. eb; ea.
+  - (* SDef *) intros body IHb rn inloop bb j L J. simpl in L. simpl visit_stmt.
+    intros s err H.
+    destruct (visit_stmts body entry_idx (Some entry_idx) (mkJ exit_idx None None)
+                (mkB [empty_block; empty_block] (bs_tmp s) (bs_nested s))) as [final s1|e1] eqn:V.
+    + destruct (finalize (bs_blocks s1) final rn) as [g|e2] eqn:F.
+      * exfalso. revert H. unfold bind, add_stmt, modify, ret. simpl. discriminate.
+      * inversion H; subst. apply finalize_errors in F. subst. right. right. right. auto.
+    + inversion H; subst. eapply (IHb false); eauto. unfold jumps_ok. discriminate.
+  - (* SOther *) intros k inloop bb j _ _. simpl. apply errs_fail. right. right. left. auto.
+  - (* SNil *) intros. simpl. ea.
+  - (* SCons *) intros s IHs ss IHss inloop prev cur j L J. simpl in L. apply andb_true_iff in L as [L1 L2].
+    simpl visit_stmts. eb.
+    + destruct cur; [ea|]. eb; [ea|]. eb; ea.
+    + eb; [eapply errs_weaken; [eapply IHs; eauto|]; intros; eapply SE_mono; [|eauto]; orb_solve|].
+      eapply errs_weaken; [eapply IHss; eauto|]. intros; eapply SE_mono; [|eauto]; orb_solve.
+Qed.
+
+Lemma build_total : forall p rn,
+  loops_ok_list false p = true ->
+  match build p rn with
+  | Built _ _ => True
+  | Rejected e => user_error e = true \/ (e = ErrUnmodelled /\ chain_mid_stmts p = true)
+  end.
+Proof.
+  intros p rn L. unfold build.
+  destruct (visit_stmts p entry_idx (Some entry_idx) (mkJ exit_idx None None) init_state) as [final s|e] eqn:V.
+  - destruct (finalize (bs_blocks s) final rn) as [g|e] eqn:F; auto.
+    apply finalize_errors in F. subst. left. auto.
+  - assert (J : jumps_ok false (mkJ exit_idx None None)) by (unfold jumps_ok; discriminate).
+    destruct (proj2 visit_total p false _ _ _ L J _ _ V) as [[X|[X|[X Y]]]|[X|[X|X]]]; subst; auto.
 Qed.
